@@ -4,7 +4,8 @@ namespace BstreamVerif.Drv.ConcDrv
 open BstreamVerif.Drv
 
 def shutdownExpect (name : String) : String :=
-  s!"{name} returned=1 terminated=1 late=0 innerdown=1 overlap=0" ++ (if name == "eternal/in-factory-2" then " restartref=12a" else "")
+  s!"{name} returned=1 terminated=1 late=0 innerdown=1 overlap=0" ++ (if name == "eternal/in-factory-2" then " restartref=12a" else "") ++
+    (if name == "eternal/after-empty-source" then " restartref=12a restartref3=12a" else "")
 
 /-- outcomes the property allows. Shutting an eternal source down "during the restart delay" races with the end of
     that delay (3 ms in the harness): either no restart happened, or one restart from the last accepted block did. -/
